@@ -241,7 +241,7 @@ fn main() {
         println!("INCONCLUSIVE property={} harness self-test failed (exit 2)", id);
         std::process::exit(2);
     }
-    let code = match id.as_str() {
+    let code = std::panic::catch_unwind(std::panic::AssertUnwindSafe(|| match id.as_str() {
         "C01" => props::c01::run(&ctx, Fmt::F64),
         "C02" => props::c01::run(&ctx, Fmt::F32),
         "C03" => props::c03::run(&ctx),
@@ -265,7 +265,13 @@ fn main() {
             eprintln!("unknown property {id}");
             2
         }
-    };
+    }))
+    .unwrap_or_else(|_| {
+        // a panic of the harness itself (not of the code under test): never a violation
+        eprintln!("HARNESS-ERROR property={id}: the harness panicked (see HARNESS PANIC above)");
+        println!("INCONCLUSIVE property={id} harness panic (exit 2)");
+        2
+    });
     let code = if ctx.fragment.is_none() { supervisor::fuzz_poststep(&ctx, code) } else { code };
     std::process::exit(code);
 }
